@@ -4,9 +4,9 @@ import opsgen
 PROP = Property(
     pid="C19",
     properties_v="Properties/Properties_C19.v",
-    coq_targets=["Extract/Extract_Dsa.vo"],
-    engines=[Engine(name="dsa", c_srcs=["harness/dsa_drv.c", "harness/dsa_arr.c"],
-                    ml_srcs=["ocaml/gen/DsaModel.ml", "ocaml/dsa_reg.ml", "ocaml/dsa_arr.ml", "ocaml/dsa_drv.ml"],
+    coq_targets=["Extract/Extract_Dsa.vo", "Extract/Extract_Buf.vo"],
+    engines=[Engine(name="dsa", c_srcs=["harness/dsa_drv.c", "harness/dsa_arr.c", "harness/dsa_buf.c"],
+                    ml_srcs=["ocaml/gen/DsaModel.ml", "ocaml/gen/BufModel.ml", "ocaml/dsa_reg.ml", "ocaml/dsa_arr.ml", "ocaml/dsa_buf.ml", "ocaml/dsa_drv.ml"],
                     gen=opsgen.gen, n_quick=1500, n_thorough=30000)],
     trusted_base=["Coq 8.16.1 kernel + coqc (vm_compute; no native_compute)",
                   "extraction (ExtrOcamlBasic only, no Extract Constant) + OCaml 4.13.1",
